@@ -90,6 +90,8 @@ class Lowerer:
                     return ".outObj"
                 if b[0] == "hint":
                     return b[1]
+                if b[0] == "slotsiter":
+                    return "(.whole %s)" % b[1]
                 raise Unparsed("name %s (%s) used as a value" % (name, b[0]))
             if name.split("::")[-1] == "USIZE":
                 return ".usize"
@@ -321,6 +323,17 @@ class Lowerer:
             env = dict(env)
             env[name] = ("ext",)
             return cont(env)
+        # `let mut source = ArrayConsumer::new(self);` : the array moves into a consumer (drops `array[position..]`)
+        if init[0] == "call" and init[1][0] == "path" and init[1][1] == "ArrayConsumer::new" and len(init[2]) == 1 \
+                and init[2][0][0] == "path" and env.get(init[2][0][1], ("",))[0] == "self":
+            hdr, body = self.find_callee("new", "ArrayConsumer")
+            ok = (not body[1] and body[2] is not None and body[2][0] == "struct" and
+                  sorted(body[2][2]) == sorted([("array", ("call", ("path", "ManuallyDrop::new"), [("path", "array")])), ("position", ("num", 0))]))
+            if not ok:
+                raise Unparsed("ArrayConsumer::new is not `ArrayConsumer { array: ManuallyDrop::new(array), position: 0 }`")
+            env = dict(env)
+            env[name] = ("objref", ".self", "ArrayConsumer")
+            return "(.set .self .position (.num 0)\n  %s)" % cont(env)
         # `let mut array = GenericArray::uninit();`
         if init[0] == "call" and init[1][0] == "path" and init[1][1].split("::")[-1] == "uninit" and not init[2]:
             env = dict(env)
@@ -820,6 +833,7 @@ TARGETS = [
     ("lib.rs", ("GenericArray<T,N>{",), "try_from_iter", "tryFromIter"),
     ("lib.rs", ("FromIterator<T>forGenericArray<T,N>",), "from_iter", "fromIter"),
     ("lib.rs", ("GenericSequence<T>forGenericArray<T,N>",), "generate", "generate"),
+    ("lib.rs", ("FunctionalSequence<T>forGenericArray<T,N>",), "fold", "gaFold"),
 ]
 
 
